@@ -58,14 +58,14 @@ def parallel_arrays_move_together(ctx):
     self._id.append(id)
 ''', 'Monitor.__call__', 'one append to each of _x, _y (k-scaled), _id')
     _ref(ctx, ctx.touch(M.methods['extend']), 'def extend(self, monitor):\n' + GUARD + '''    self._x.extend(monitor._x)
-    self._y.extend(self._get_y(monitor))
+    self._y.extend(list(self._get_y(monitor)))
     self._id.extend(monitor._id)
     self._info.extend(monitor._info)
 ''', 'Monitor.extend', '_x<-_x, _y<-converted _y, _id<-_id, _info<-_info')
-    _ref(ctx, ctx.touch(M.methods['prepend']), 'def prepend(self, monitor):\n' + GUARD + '''    [self._x.insert(*i) for i in enumerate(monitor._x)]
-    [self._y.insert(*i) for i in enumerate(self._get_y(monitor))]
-    [self._id.insert(*i) for i in enumerate(monitor._id)]
-    [self._info.insert(*i) for i in enumerate(monitor._info)]
+    _ref(ctx, ctx.touch(M.methods['prepend']), 'def prepend(self, monitor):\n' + GUARD + '''    [self._x.insert(*i) for i in enumerate(monitor._x[:])]
+    [self._y.insert(*i) for i in enumerate(list(self._get_y(monitor)))]
+    [self._id.insert(*i) for i in enumerate(monitor._id[:])]
+    [self._info.insert(*i) for i in enumerate(monitor._info[:])]
 ''', 'Monitor.prepend', 'each array inserted at its enumerate index (order preserved)')
     # getitem / setitem: per branch the three stores are the same expression up to the array name
     for meth, tgt in (('__getitem__', 'm'), ('__setitem__', 'self')):
@@ -526,3 +526,35 @@ def converted_files_keep_the_cost_scale(ctx):
         ctx.check(k_given and late is None, name + '#k', 'write_monitor(..., k=%s.k): the costs are scaled as they are stored' % mp,
                   '%s builds its temporary monitor from the unscaled costs %s: k is %s, so the written costs are divided by k twice'
                   % (name, 'without k' if not k_given else 'with k', 'copied onto it afterwards (%s)' % norm_stmt(late) if late is not None else 'never applied'), f, late if late is not None else tmp[1])
+
+
+@rule('C20.l', min_instances=5)
+def concatenation_reads_its_argument_through_snapshots(ctx):
+    """extend / prepend are legal with the monitor itself as argument (m.extend(m) doubles it): whatever they iterate over while they write into self's arrays is materialised first - a slice copy or list(...) - or is a plain list handed to list.extend (which reads its argument's length once); a lazy iterator over, or an enumerate of, the argument's own list would be fed by the very insertions it drives and never end"""
+    M = ctx.cls(MO + ':Monitor')
+    n = 0
+    for name in ('extend', 'prepend'):
+        f = ctx.touch(M.methods[name])
+        mp = f.args()[1]
+
+        def snap(e):
+            if isinstance(e, ast.Subscript) and isinstance(e.slice, ast.Slice):
+                return True
+            return isinstance(e, ast.Call) and isinstance(e.func, ast.Name) and e.func.id in ('list', 'tuple')
+
+        def plain(e):
+            return isinstance(e, ast.Attribute) and isinstance(e.value, ast.Name) and e.value.id == mp
+        for c in [x for x in ast.walk(f.node) if isinstance(x, ast.Call)]:
+            if isinstance(c.func, ast.Attribute) and c.func.attr == 'extend' and c.args:
+                n += 1
+                a = c.args[0]
+                ctx.check(plain(a) or snap(a), 'Monitor.%s#%s' % (name, unparse(c.func.value)), 'extended by a plain list or a snapshot',
+                          'Monitor.%s extends %s by the lazy value %s: when the argument is the monitor itself the iterator reads the list it is extending and never ends'
+                          % (name, unparse(c.func.value), unparse(a)[:50]), f, c)
+            if isinstance(c.func, ast.Name) and c.func.id == 'enumerate' and c.args:
+                n += 1
+                a = c.args[0]
+                ctx.check(snap(a), 'Monitor.%s#enumerate(%s)' % (name, unparse(a)[:30]), 'enumerates a snapshot',
+                          'Monitor.%s inserts into self while enumerating %s: when the argument is the monitor itself every insertion lengthens the list being enumerated and the call never returns'
+                          % (name, unparse(a)[:50]), f, c)
+    ctx.need(n >= 5, 'expected >= 5 concatenation reads in extend / prepend, found %d' % n)
